@@ -6,7 +6,7 @@
  *     ascending and in descending / rotated array order; the client's output must be exactly X intersect Y as a multiset (each common element once).
  *   del: the four delegated-pairing protocols (cp_pdpub, cp_lvpub, cp_pdprv, cp_lvprv) over a grid of inputs P = [a]G1, Q = [b]G2 (a, b in 0, 1, 2,
  *     n - 1, dense): with the honest helper the client must accept and output e(P, Q); then EVERY answer of the helper is altered in EVERY way of the
- *     mutation alphabet (times the generator, squared, inverted, replaced by 1, by 0, by another answer, by a non-member): whenever the client accepts,
+ *     mutation alphabet (times the generator, squared, inverted, replaced by 1, by 0, by another answer, by a non-member; and, for a challenge that is a multiple of a small prime l, times an element of order l outside GT): whenever the client accepts,
  *     its output must still be e(P, Q) ("outputs the pairing value or rejects a dishonest helper").
  *   ped: cp_ped_com(c, h, r, x) = [x]G + [r]H by the plain double-and-add multiplication, over edge and dense (x, r); x = 0, x >= n, H = O refused.
  *   tri: the g1 / g2 / gt triples (g*_mul_lcl/bct/mpc, gt_exp_*) and the pairing triple (pc_map_tri/lcl/bct/mpc): both parties' outputs combine to
@@ -66,6 +66,18 @@ static void mutate(gt_t *g, int ng, int i, int kind, const gt_t E) { gt_t t; gt_
 	switch (kind) { case 0: gt_get_gen(t); gt_mul(g[i], g[i], t); break; case 1: gt_sqr(g[i], g[i]); break; case 2: gt_inv(g[i], g[i]); break; case 3: gt_set_unity(g[i]); break; case 4: gt_zero(g[i]); break;
 		case 5: gt_copy(g[i], g[(i + 1) % ng]); break; case 6: { fp_st *s = (fp_st *)g[i]; fp_add_dig(s[0], s[0], 1); break; } default: gt_mul(g[i], g[i], E); break; }
 	gt_free(t); }
+
+/* an element of small prime order l outside GT: l | Phi_12(p) / r found by trial division, w = f^((p^12 - 1) / l) != 1 computed by the reference tower */
+static gt_t SMALLW; static unsigned long SMALLL = 0; static long smallw_cid = -1;
+static int small_order_element(long cid) {
+	if (smallw_cid == cid) return SMALLL != 0; smallw_cid = cid; SMALLL = 0; static int init = 0; if (!init) { gt_null(SMALLW); gt_new(SMALLW); init = 1; }
+	mpz_t phi, r, t, e; mpz_inits(phi, r, t, e, NULL); bn_t ord; bn_null(ord); bn_new(ord); pc_get_ord(ord); vf_bn_get(r, ord); bn_free(ord);
+	mpz_pow_ui(phi, vf_p, 4); mpz_pow_ui(t, vf_p, 2); mpz_sub(phi, phi, t); mpz_add_ui(phi, phi, 1); /* Phi_12(p) */ if (!mpz_divisible_p(phi, r)) { mpz_clears(phi, r, t, e, NULL); return 0; } mpz_divexact(phi, phi, r);
+	for (unsigned long l = 5; l < 20000 && !SMALLL; l += 2) { int pr = 1; for (unsigned long d = 3; d * d <= l; d += 2) if (l % d == 0) { pr = 0; break; } if (pr && mpz_divisible_ui_p(phi, l)) SMALLL = l; }
+	if (SMALLL) { mpz_divexact_ui(e, GT_Q12, SMALLL); relt f, w; relt_init(&f); relt_init(&w); int found = 0; for (unsigned long s0 = 2; s0 < 40 && !found; s0++) { for (int i = 0; i < 12; i++) mpz_set_ui(f.c[i], s0 + (unsigned long)i * i + 1); relt_pow(&T12, &w, &f, e); if (!gt_ref_is_one(&w)) found = 1; }
+		if (found) gt_put(SMALLW, &w); else SMALLL = 0; relt_clear(&f); relt_clear(&w); }
+	mpz_clears(phi, r, t, e, NULL); return SMALLL != 0;
+}
 /* del: protocol, cid, a selector, b selector, seed */
 static void do_del(vf_case *c) {
 	int proto = (int)mpz_get_si(c->v[0]); long cid = mpz_get_si(c->v[1]); int as = (int)mpz_get_si(c->v[2]), bs = (int)mpz_get_si(c->v[3]); unsigned long seed = mpz_get_ui(c->v[4]); int th, v;
@@ -93,6 +105,18 @@ static void do_del(vf_case *c) {
 		CHECK(v == 0 || v == 1, "%s_ver returns %d (neither accept nor reject) when the helper's answer %d is %s", PN[proto], v, i, MUTN[kind]);
 		if (v != 0) CHECK(gt_cmp(r, E) == RLC_EQ, "%s_ver ACCEPTS a dishonest helper and outputs a value different from e(P, Q): answer %d %s (P = [sel %d]G1, Q = [sel %d]G2)", PN[proto], i, MUTN[kind], as, bs);
 		else vf_stat_add("x.del_dishonest_rejected", 1); }
+	/* answers carrying a component of small order l outside GT, for a challenge that is a multiple of l (the consistency equation cannot see the
+	   component of an answer that is raised to the challenge; only the membership check can) */
+	if (small_order_element(cid)) { int ok = 1;
+		switch (proto) {
+			case 0: VF_TRY(th, v = cp_pdpub_gen(cc, r2[0], u1[0], u2[0], v2[0], e[0])); { dig_t rem; bn_mod_dig(&rem, cc, (dig_t)SMALLL); bn_sub_dig(cc, cc, rem); if (bn_is_zero(cc)) bn_set_dig(cc, (dig_t)SMALLL); } VF_TRY(th, v = cp_pdpub_ask(v1[0], w2[0], P, Q, cc, r2[0], u1[0], u2[0], v2[0])); VF_TRY(th, v = cp_pdpub_ans(gh, P, Q, v1[0], v2[0], w2[0])); break;
+			case 1: VF_TRY(th, v = cp_lvpub_gen(r2[0], u1[0], u2[0], v2[0], e[0])); ok = 0; for (int tries = 0; tries < 40 * (int)SMALLL && !ok; tries++) { VF_TRY(th, v = cp_lvpub_ask(cc, v1[0], w2[0], P, Q, r2[0], u1[0], u2[0], v2[0])); dig_t rem; bn_mod_dig(&rem, cc, (dig_t)SMALLL); ok = rem == 0 && !bn_is_zero(cc); } if (ok) VF_TRY(th, v = cp_lvpub_ans(gh, P, Q, v1[0], v2[0], w2[0])); break;
+			case 2: VF_TRY(th, v = cp_pdprv_gen(cc, r2, u1, u2, v2, e)); { dig_t rem; bn_mod_dig(&rem, cc, (dig_t)SMALLL); bn_sub_dig(cc, cc, rem); if (bn_is_zero(cc)) bn_set_dig(cc, (dig_t)SMALLL); } VF_TRY(th, v = cp_pdprv_ask(v1, w2, P, Q, cc, (const bn_t *)r2, (const g1_t *)u1, (const g2_t *)u2, (const g2_t *)v2)); VF_TRY(th, v = cp_pdprv_ans(gh, (const g1_t *)v1, (const g2_t *)w2)); break;
+			default: VF_TRY(th, v = cp_lvprv_gen(cc, r2, u1, u2, v2, e)); { dig_t rem; bn_mod_dig(&rem, cc, (dig_t)SMALLL); bn_sub_dig(cc, cc, rem); if (bn_is_zero(cc)) bn_set_dig(cc, (dig_t)SMALLL); } VF_TRY(th, v = cp_lvprv_ask(v1, w2, P, Q, cc, (const bn_t *)r2, (const g1_t *)u1, (const g2_t *)u2, (const g2_t *)v2)); VF_TRY(th, v = cp_lvprv_ans(gh, (const g1_t *)v1, (const g2_t *)w2)); break; }
+		if (!ok) vf_stat_add("x.del_no_challenge_multiple_found", 1);
+		else { VER(gh); CHECK(!th && (v == 1 || (unity && v == 0)), "%s_ver rejects the honest helper for a challenge that is a multiple of %lu", PN[proto], SMALLL); if (!th && v == 1) CHECK(gt_cmp(r, E) == RLC_EQ, "%s_ver: honest helper, challenge multiple of %lu: output differs from e(P, Q)", PN[proto], SMALLL);
+			for (int i = 0; i < ng; i++) { for (int j = 0; j < ng; j++) gt_copy(g[j], gh[j]); gt_mul(g[i], g[i], SMALLW); VER(g); if (th) { vf_statf_add(1, "x.del_ver_raised.%s", PN[proto]); continue; }
+				if (v != 0) CHECK(gt_cmp(r, E) == RLC_EQ, "%s_ver ACCEPTS a dishonest helper and outputs a value different from e(P, Q): answer %d multiplied by an element of order %lu outside GT, challenge a multiple of %lu (P = [sel %d]G1, Q = [sel %d]G2)", PN[proto], i, SMALLL, SMALLL, as, bs); else vf_stat_add("x.del_small_order_rejected", 1); } } }
 	goto done;
 genfail: vf_fail(NULL, "%s_gen failed", PN[proto]); goto done;
 askfail: vf_fail(NULL, "%s_ask failed", PN[proto]);
